@@ -182,8 +182,15 @@ func (q *UdpTaskQueue) convoy() {
 
 			verifYield("convoy.afterIdleCheck")
 
-			// CAS refs to lock out new acquireQueue and avoid time.Sleep
-			if !q.refs.CompareAndSwap(0, -1000000) {
+			// CAS refs to lock out new acquireQueue and avoid time.Sleep.
+			// The claim is taken under enqueueMu together with a second emptiness
+			// check: a complete EmitTask (acquire, enqueue, release) may have run
+			// since the check above, and claiming a non-empty queue would lose
+			// its tasks (and recycle a non-empty channel).
+			q.enqueueMu.Lock()
+			claimed := len(q.ch) == 0 && len(q.overflow) == 0 && q.refs.CompareAndSwap(0, -1000000)
+			q.enqueueMu.Unlock()
+			if !claimed {
 				q.safeTimerReset(timer)
 				continue
 			}
